@@ -106,6 +106,8 @@ impl OutcomeRx {
 //@@ type file=fe2o3-amqp/src/endpoint/mod.rs kind=enum name=Settlement
 //@@ subst `oneshot::Receiver<Option<DeliveryState>>` => `OutcomeRx` rule=R9
 //@@ end
+/// what comes back for the delivery that was sent last in `log`: None = the channel is dropped without an answer (link or session gone), Some(None) = settled without a state, Some(Some(s)) = the peer's delivery state
+pub uninterp spec fn reply_to(log: Seq<Sent>) -> Option<Option<DeliveryState>>;
 pub struct SenderInnerS { pub sent: Ghost<Seq<Sent>>, pub closes: Ghost<Seq<Option<AmqpErrorS>>> }
 impl SenderInnerS {
     #[verifier::external_body]
@@ -114,6 +116,7 @@ impl SenderInnerS {
             r is Ok ==> final(self).sent@ == old(self).sent@.push(Sent { body: sendable.message.body, settled: sendable.settled, state, batchable }),
             r is Err ==> final(self).sent@ == old(self).sent@,
             final(self).closes == old(self).closes,
+            r is Ok && r->Ok_0 is Unsettled ==> r->Ok_0->Unsettled_outcome.v@ == reply_to(final(self).sent@),       // (the channel handed back is the one on which the peer's outcome for THIS delivery arrives)
     { unimplemented!() }
     /// the closing handshake of the control link (unit LINKDETACH)
     #[verifier::external_body]
@@ -137,6 +140,7 @@ impl ErrInto<ControllerSendError> for DetachError { open spec fn conv(self) -> C
         final(sender).closes == old(sender).closes,       // (the control link is not closed by an exchange on it)
         r is Ok ==> final(sender).sent@ == old(sender).sent@.push(Sent { body: sendable.message.body, settled: sendable.settled, state: None, batchable: false }),   // [C18.controller.control-message] a control message goes out exactly once, with no delivery state, as given
         r is Err ==> final(sender).sent@.len() <= old(sender).sent@.len() + 1,
+        r is Ok ==> r->Ok_0.v@ == reply_to(final(sender).sent@),       // [C18.controller.outcome-is-this-message's] the outcome that will be awaited is the coordinator's answer to THIS control message
 //@@ end
 
 //@@ fn file=fe2o3-amqp/src/transaction/controller.rs name=discharge_on_link
@@ -154,6 +158,9 @@ impl ErrInto<ControllerSendError> for DetachError { open spec fn conv(self) -> C
         final(inner).closes == old(inner).closes,       // (the control link is not closed by an exchange on it)
         r is Ok ==> final(inner).sent@ == old(inner).sent@.push(Sent { body: Body::Discharge(Discharge { txn_id, fail: Some(fail) }), settled: false, state: None, batchable: false }),   // [C18.controller.discharge-on-wire] commit/rollback put exactly this transaction's id and the fail flag on the control link, unsettled
         final(inner).sent@.len() <= old(inner).sent@.len() + 1,                                                                                                                          // [C18.controller.discharge-once] at most one discharge message per call
+        r is Ok ==> reply_to(final(inner).sent@) == Some(Some(DeliveryState::Accepted(r->Ok_0))),       // [C18.controller.outcome-reported] a discharge reports success exactly when the coordinator ACCEPTED this discharge message ...
+        (r is Err && r->Err_0 is Rejected) ==> reply_to(final(inner).sent@) == Some(Some(DeliveryState::Rejected(r->Err_0->Rejected_0))),       // ... and the coordinator's rejection, with its error, when it rejected it
+        final(inner).sent@.len() == old(inner).sent@.len() + 1 && reply_to(final(inner).sent@) is Some && reply_to(final(inner).sent@)->Some_0 is Some && !(reply_to(final(inner).sent@)->Some_0->Some_0 is Accepted) ==> r is Err,       // anything but `accepted` is a failure of the discharge: a commit is never reported done on a released / modified / declared / received outcome
         (r is Err && r->Err_0 is Rejected) ==> final(inner).sent@.len() == old(inner).sent@.len() + 1,                                                                                   // [C18.controller.outcome-reported] the coordinator's rejection is reported as such (only after the message went out)
 //@@ end
 
@@ -170,6 +177,8 @@ impl ErrInto<ControllerSendError> for DetachError { open spec fn conv(self) -> C
         final(inner).closes == old(inner).closes,       // (the control link is not closed by an exchange on it)
         r is Ok ==> final(inner).sent@ == old(inner).sent@.push(Sent { body: Body::Declare(Declare { global_id }), settled: false, state: None, batchable: false }),   // [C18.controller.declare-on-wire]
         final(inner).sent@.len() <= old(inner).sent@.len() + 1,
+        r is Ok ==> reply_to(final(inner).sent@) == Some(Some(DeliveryState::Declared(r->Ok_0))),       // [C18.controller.declared-id-is-the-coordinator's] the transaction id a declare hands to the application is the one the coordinator put into its `declared` outcome for THIS declare -- every later post and the discharge name it
+        (r is Err && r->Err_0 is Rejected) ==> reply_to(final(inner).sent@) == Some(Some(DeliveryState::Rejected(r->Err_0->Rejected_0))),       // [C18.controller.outcome-reported]
 //@@ end
 
 // ---------------------------------------------------------------- Transaction / OwnedTransaction: the discharged flag
@@ -194,6 +203,7 @@ impl Transaction {
         !old(self).is_discharged && r is Ok ==> final(self).is_discharged
             && final(self).controller.inner.sent@ == old(self).controller.inner.sent@.push(Sent { body: Body::Discharge(Discharge { txn_id: old(self).declared.txn_id, fail: Some(fail) }), settled: false, state: None, batchable: false }),   // [C18.controller.discharge-on-wire] with the id this transaction was declared with
         r is Err ==> !final(self).is_discharged,                                                                                                          // [C18.controller.failed-discharge-not-recorded] a discharge whose outcome is an error is NOT recorded as done: the application (or Drop) can still roll back
+        !old(self).is_discharged && r is Ok ==> reply_to(final(self).controller.inner.sent@) is Some && reply_to(final(self).controller.inner.sent@)->Some_0 is Some && reply_to(final(self).controller.inner.sent@)->Some_0->Some_0 is Accepted,       // [C18.controller.outcome-reported] the discharge is reported done only when the coordinator ACCEPTED it
 //@@ end
 }
 impl Transaction {
@@ -205,6 +215,7 @@ impl Transaction {
 //@@ spec
     ensures
         !old(self).is_discharged && r is Ok ==> final(self).controller.inner.sent@ == old(self).controller.inner.sent@.push(Sent { body: Body::Discharge(Discharge { txn_id: old(self).declared.txn_id, fail: Some(false) }), settled: false, state: None, batchable: false }),   // [C18.controller.commit-is-discharge-without-fail] commit puts a discharge for THIS transaction's id with fail=false on the wire
+        !old(self).is_discharged && r is Ok ==> reply_to(final(self).controller.inner.sent@) is Some && reply_to(final(self).controller.inner.sent@)->Some_0 is Some && reply_to(final(self).controller.inner.sent@)->Some_0->Some_0 is Accepted,       // [C18.controller.commit-ok-means-accepted] commit() returns Ok only on the coordinator's `accepted` for that discharge
 //@@ end
 //@@ fn file=fe2o3-amqp/src/transaction/mod.rs impl=`~TransactionDischarge:Sized` name=rollback
 //@@ nowhere
@@ -214,6 +225,7 @@ impl Transaction {
 //@@ spec
     ensures
         !old(self).is_discharged && r is Ok ==> final(self).controller.inner.sent@ == old(self).controller.inner.sent@.push(Sent { body: Body::Discharge(Discharge { txn_id: old(self).declared.txn_id, fail: Some(true) }), settled: false, state: None, batchable: false }),    // [C18.controller.rollback-is-discharge-with-fail] rollback puts a discharge for this transaction's id with fail=true on the wire
+        !old(self).is_discharged && r is Ok ==> reply_to(final(self).controller.inner.sent@) is Some && reply_to(final(self).controller.inner.sent@)->Some_0 is Some && reply_to(final(self).controller.inner.sent@)->Some_0->Some_0 is Accepted,
 //@@ end
 }
 impl OwnedTransaction {
@@ -228,6 +240,7 @@ impl OwnedTransaction {
         !old(self).is_discharged && r is Ok ==> final(self).is_discharged
             && final(self).inner.sent@ == old(self).inner.sent@.push(Sent { body: Body::Discharge(Discharge { txn_id: old(self).declared.txn_id, fail: Some(fail) }), settled: false, state: None, batchable: false }),   // [C18.controller.discharge-on-wire]
         r is Err ==> !final(self).is_discharged,                                                                                                          // [C18.controller.failed-discharge-not-recorded]
+        !old(self).is_discharged && r is Ok ==> reply_to(final(self).inner.sent@) is Some && reply_to(final(self).inner.sent@)->Some_0 is Some && reply_to(final(self).inner.sent@)->Some_0->Some_0 is Accepted,       // [C18.controller.outcome-reported]
 //@@ end
 
 //@@ fn file=fe2o3-amqp/src/transaction/owned.rs impl=`impl TransactionDischarge for OwnedTransaction` name=commit as=owned_commit id=OwnedTransaction::commit
@@ -273,6 +286,27 @@ impl OwnedTransaction {
         r is Ok ==> !r->Ok_0.is_discharged,       // [C18.controller.fresh-transaction-not-discharged] a transaction that has just been declared is not discharged: commit / rollback / Drop will still put its discharge on the wire
         r is Ok ==> r->Ok_0.inner.sent@ == controller.inner.sent@.push(Sent { body: Body::Declare(Declare { global_id }), settled: false, state: None, batchable: false }) && r->Ok_0.inner.closes == controller.inner.closes,       // [C18.controller.declare-on-wire] the declare goes out on the control link the transaction then owns -- the link its discharge will use
         r is Ok ==> r->Ok_0.rollback_on_drop_trials == DEFAULT_ROLLBACK_ON_DROP_TRIALS,
+        r is Ok ==> reply_to(r->Ok_0.inner.sent@) == Some(Some(DeliveryState::Declared(r->Ok_0.declared))),       // [C18.controller.declared-id-is-the-coordinator's]
+//@@ end
+}
+
+impl Transaction {
+//@@ fn file=fe2o3-amqp/src/transaction/mod.rs impl=`impl<'t> Transaction<'t>` name=declare id=Transaction::declare
+//@@ qmark
+//@@ generics
+//@@ nowhere
+//@@ param controller : ControllerS
+//@@ param global_id : Option<TransactionId>
+//@@ ret Result<Transaction, ControllerSendError>
+//@@ subst `global_id.into()` => `global_id_into(global_id)` rule=R16
+//@@ subst `let mut inner = controller.inner.lock();` => `let mut controller = controller; let inner = (&mut controller.inner);` rule=R4
+//@@ subst `&mut inner` => `inner` rule=R4
+//@@ spec
+    ensures
+        r is Ok ==> !r->Ok_0.is_discharged,       // [C18.controller.fresh-transaction-not-discharged] a transaction that has just been declared over a shared controller is not discharged either
+        r is Ok ==> r->Ok_0.controller.inner.sent@ == controller.inner.sent@.push(Sent { body: Body::Declare(Declare { global_id }), settled: false, state: None, batchable: false }) && r->Ok_0.controller.inner.closes == controller.inner.closes,       // [C18.controller.declare-on-wire] the declare goes out on the controller the transaction keeps -- the one its posts name and its discharge will use
+        r is Ok ==> r->Ok_0.rollback_on_drop_trials == DEFAULT_ROLLBACK_ON_DROP_TRIALS,
+        r is Ok ==> reply_to(r->Ok_0.controller.inner.sent@) == Some(Some(DeliveryState::Declared(r->Ok_0.declared))),       // [C18.controller.declared-id-is-the-coordinator's] the handle keeps the id the coordinator declared for THIS declare
 //@@ end
 }
 
